@@ -2,6 +2,7 @@ package qos
 
 import (
 	"context"
+	"encoding/binary"
 	"fmt"
 	"net"
 	"os"
@@ -329,5 +330,7 @@ func (m *Manager) GetSubscriberCount() int {
 // ipToKey converts an IPv4 address to a uint32 key (network byte order)
 func ipToKey(ip net.IP) uint32 {
 	ip4 := ip.To4()
-	return uint32(ip4[0])<<24 | uint32(ip4[1])<<16 | uint32(ip4[2])<<8 | uint32(ip4[3])
+	// The TC programs key the maps on ip->daddr / ip->saddr as loaded from the frame,
+	// i.e. on the four address bytes in wire order in memory.
+	return binary.NativeEndian.Uint32(ip4)
 }
